@@ -32,7 +32,7 @@ ASSUMPTIONS = [
 ]
 REQUIRED_CLAUSES = [
     "added=shipped", "shipped=received", "received=postprocessed", "records-per-request", "record-identity", "no-record-without-request",
-    "handed-over=bulk-added", "dependent-timings", "queue-drops-only-when-full", "downsample-reduces-only", "throughput-from-all-samples",
+    "handed-over=bulk-added", "dependent-timings", "queue-drops-only-when-full", "downsample-reduces-only", "throughput-from-all-samples", "queue-capacity-as-configured",
 ]
 REQUIRED_FEATURES = {"over-commit": 3, "long-task-ticks": 2, "composite": 2, "small-queue": 2, "downsample": 2, "fine-preemption": 5, "multi-worker": 5}
 BUDGET = {"quick": {"cases": 700, "seconds": 27}, "thorough": {"cases": 15000, "seconds": 700}}
@@ -124,6 +124,7 @@ def make_instrument(case, rng):
         tr.bulk_added = 0
         tr.rc_docs = []
         tr.queue_full_at_add = 0
+        tr.queue_capacities = set()
         tr.added_ids = []
 
         orig_add = driver.Sampler.add
@@ -146,6 +147,7 @@ def make_instrument(case, rng):
 
                 q._verif_put = True
                 q.put_nowait = put_nowait
+                tr.queue_capacities.add(q.maxsize)
             return orig_add(sampler, *a, **kw)
 
         driver.Sampler.add = add
@@ -288,6 +290,11 @@ def check(ctx, case, tr, problems, feats):
     small_queue = "sample.queue.size" in special
     factor = int(special.get("metrics.request.downsample.factor", 1))
     added = tr.added_ids
+    # ---- "only a full sample queue may reduce": full means as many samples as configured (docs/configuration.rst: sample.queue.size, default 2^20)
+    ctx.clause("queue-capacity-as-configured")
+    want_capacity = int(special.get("sample.queue.size", 1 << 20))
+    if tr.queue_capacities - {want_capacity}:
+        problems.append(("queue-capacity-as-configured", f"sample.queue.size is {want_capacity} ({'configured' if small_queue else 'the documented default'}) but the workers' sample queues hold {sorted(tr.queue_capacities)} samples", None))
     # ---- shipping
     ctx.clause("added=shipped")
     if multiset(added) != multiset(tr.shipped):
